@@ -142,3 +142,93 @@ def is_killed(killed, path):
         if path[:n] in killed:
             return True
     return False
+
+
+class ReadsBeforeKill:
+    """fields (access paths under a reference parameter) that a function may read before it overwrites them,
+    composed through workspace callees (bounded depth)"""
+
+    def __init__(self, world, eff, max_depth=4):
+        self.world = world
+        self.eff = eff
+        self.memo = {}
+        self.max_depth = max_depth
+        self.analysed = set()
+
+    def rbk(self, fn, depth=0):
+        """dict param_index -> set of paths (rooted at ("A", param_index)) read before killed"""
+        if fn in self.memo:
+            return self.memo[fn]
+        body = self.world.body(fn)
+        if body is None or depth > self.max_depth:
+            return None
+        self.memo[fn] = {}
+        it = absint.Interp(self.world, body, models=MODELS_WITH_READS, summaries=self.eff, depth=depth)
+        it.log_reads = True
+        outs = it.run(0)
+        self.analysed.add(fn)
+        res = {}
+        for o in outs:
+            killed = set()
+            for e in o.trace:
+                if e[0] == "read":
+                    p = strip_content(e[2])
+                    if not is_killed(killed, p):
+                        res.setdefault(p[0][1], set()).add(p)
+                elif e[0] == "store":
+                    if e[2] and e[2][-1] == ("f", "<empty?>"):
+                        continue
+                    if strip_content(e[2]) == e[2]:
+                        killed.add(e[2])
+                elif e[0] == "clear":
+                    killed.add(strip_content(e[2]))
+                elif e[0] == "call":
+                    callee, args = e[2], e[3]
+                    sub = self.rbk(callee, depth + 1) if callee and self.world.body(callee) is not None else None
+                    if sub is None and callee and self.world.body(callee) is not None:
+                        # too deep: assume the callee may read everything it is given
+                        for a in args:
+                            if a[0] == "ref" and a[1] and a[1][0][0] == "A":
+                                p = strip_content(a[1])
+                                if not is_killed(killed, p):
+                                    res.setdefault(p[0][1], set()).add(p)
+                        continue
+                    if sub:
+                        for j, a in enumerate(args):
+                            if a[0] == "ref" and a[1] and a[1][0][0] == "A":
+                                base = strip_content(a[1])
+                                for q in sub.get(j + 1, ()):
+                                    p = base + q[1:]
+                                    if not is_killed(killed, p):
+                                        res.setdefault(p[0][1], set()).add(p)
+                        # kills performed by the callee (all return paths)
+                        pfs = self.eff.paths(callee, depth + 1)
+                        if pfs:
+                            for j, a in enumerate(args):
+                                if a[0] != "ref" or not a[1] or a[1][0][0] != "A":
+                                    continue
+                                base = strip_content(a[1])
+                                root = (("A", j + 1),)
+                                ks = None
+                                for pf in pfs:
+                                    if pf.kind != "return":
+                                        continue
+                                    k = {q for q in pf.killed if q[:1] == root}
+                                    ks = k if ks is None else ks & k
+                                for q in ks or ():
+                                    killed.add(base + q[1:])
+        self.memo[fn] = res
+        return res
+
+
+def m_len_read(interp, st, t, args, bb):
+    # len()/is_empty() of a container: a read of its shape only
+    if args and args[0][0] == "ref" and args[0][1] and args[0][1][0][0] == "A" and interp.log_reads:
+        s2 = st.fork()
+        s2.trace = s2.trace + (("read", bb, strip_content(args[0][1]) + (("f", "<len>"),)),)
+        return [(s2, absint.SYM("ret:%d" % bb))]
+    return None
+
+
+MODELS_WITH_READS = dict(EXTRA_MODELS)
+MODELS_WITH_READS.update({"alloc::vec::Vec::len": m_len_read, "[T]::len": m_len_read})
